@@ -20,7 +20,8 @@ META = {
         'may-raise facts), every zone returned by the fallback scan is dominated by the test "offset of the candidate at '
         'that instant == offset of the value", the UTC shortcut by offset == 0 and only after the mapped-zone lookup, the last statement raises ValueError; '
         'timezone_name is not memoised (aware datetimes compare by instant); every zone name the writer can emit is a token the ZINC reader accepts (date-time row of the writer/reader pairing).'
-        ' Also (D2): the zone conversion is not conditioned on the truthiness of utcoffset() (timedelta(0) is falsy); every binding of the written zone label is timezone_name(value).'),
+        ' Also (D2): the zone conversion is not conditioned on the truthiness of utcoffset() (timedelta(0) is falsy); every binding of the written zone label is timezone_name(value).'
+        " Round 9: (D1) the zone tables are bound by assignment only, never changed in place; (D3) the zone name is taken from pytz's own `zone` attribute only (a `key` of a foreign tzinfo is not justified without the offset test)."),
     'rule_text': 'obligations = map-construction facts, reader/writer API sites, timezone_name paths',
     'trusted_base': ['pytz.all_timezones lists each zone once; astimezone() preserves the instant; spec/may_raise.json'],
 }
